@@ -277,6 +277,13 @@ pub fn filter_body_contract() {
         else { assert!(k2 == keep + 1 && moves[keep] == m, "C01: a move leaving the king safe is dropped"); }
     }
     assert!(moves.len() == 4, "C01: filter step changes the length of the list");
+    // frame (what makes the step contract an induction step for the whole loop): no entry other than the slot a kept
+    // move is copied to changes -- neither the candidates already kept (below keep_index) nor the ones not yet examined
+    let j = nd::usize_below(4);
+    let before_j = if j == index { m } else { filler };
+    if !(k2 == keep + 1 && j == keep) {
+        assert!(moves[j] == before_j, "C01: filter step disturbs a candidate other than the slot it compacts into");
+    }
     vcover!(shortcut, "shortcut reachable");
     vcover!(!shortcut && !answer && kind == 2, "kept en passant reachable");
 }
